@@ -335,7 +335,8 @@ func (r *Resolvable) InitSubscription(ctx *Context, initialData []byte, postProc
 		}
 		if postProcessing.SelectResponseErrorsPath != nil {
 			selectedInitialErrors := initialValue.Get(postProcessing.SelectResponseErrorsPath...)
-			if selectedInitialErrors != nil {
+			// only an array can collect further errors: `"errors": null` is the same as no errors
+			if selectedInitialErrors != nil && selectedInitialErrors.Type() == astjson.TypeArray {
 				r.errors = selectedInitialErrors
 			}
 		}
